@@ -20,6 +20,7 @@ DRIVERS: dict[str, list[list[str]]] = {
     "C06": [["drivers/streams.py", "--max-len", "5"], ["drivers/streams.py", "--mode", "directed"]],
     "C20": [["drivers/flow_control.py"]],
     "C19": [["drivers/connect_race.py"]],
+    "C15": [["drivers/stream_server.py", "--max-frames", "2"]],
     "C07": [["drivers/streams.py", "--mode", "bound"], ["drivers/streams.py", "--mode", "directed"], ["drivers/streams.py", "--max-len", "5"]],
 }
 
